@@ -755,6 +755,10 @@ func (p *Posix) createObjVersion(bucket, key string, size int64, acc auth.Accoun
 		return versionPath, err
 	}
 
+	// an earlier version stored under the same id (the null version) may
+	// have left its attributes in the sidecar store
+	p.dropStaleSidecarAttrs(versionPath, "")
+
 	// Copy the object attributes(metadata)
 	for _, attr := range attrs {
 		data, err := p.meta.RetrieveAttribute(sf, bucket, key, attr)
@@ -3428,6 +3432,9 @@ func (p *Posix) DeleteObject(ctx context.Context, input *s3.DeleteObjectInput) (
 					return nil, fmt.Errorf("list object attributes: %w", err)
 				}
 
+				// the removed version's attributes do not pass to the
+				// version that takes its place
+				p.dropStaleSidecarAttrs(bucket, object)
 				for _, attr := range attrs {
 					data, err := p.meta.RetrieveAttribute(nil, versionPath, srcVersionId, attr)
 					if err != nil {
